@@ -1,7 +1,7 @@
 #!/bin/bash
 # usage: tools/harmtest.sh <Hk>  -- apply each semantics-preserving refactoring of a sub-agent to a scratch export and run ALL checks:
 # exit 0 expected; exit 2 (undecided) tolerated; exit 1 would be a false alarm.
-H=$1; O=${SEEDROOT:-/tmp/seed2}/$H/_seed_out
+H=$1; O=${SEEDROOT:-/tmp/seed2}/$H/_seed_out; [ -d $O ] || O=/verif/seeded/harmless/$H
 for r in r1 r2 r3; do
   [ -f $O/$r.diff ] || continue
   M=/tmp/mrepo_${H}_$r; rm -rf $M; mkdir $M; (cd /repo && git archive HEAD | tar -x -C $M; cp /repo/Cargo.lock $M/ 2>/dev/null)
